@@ -38,6 +38,9 @@ func RunOnce(t *testing.T, sc *Scenario, prefix []int) (x *Exec) {
 		x.Horizon = time.Hour
 	}
 	func() {
+		// Whatever the shims keep in channels belongs to the bubble: once the execution is
+		// over (the oracle runs outside it) their state starts afresh.
+		defer epoch.Add(1)
 		defer func() {
 			// synctest panics when blocked goroutines remain after the root
 			// returns ("deadlock: main bubble goroutine has exited..."): leaked
@@ -92,6 +95,7 @@ func RunFree(t *testing.T, sc *Scenario) (finished bool) {
 		x.Horizon = time.Hour
 	}
 	func() {
+		defer epoch.Add(1)
 		defer func() {
 			if r := recover(); r != nil {
 				msg := fmt.Sprint(r)
